@@ -38,6 +38,9 @@ for f in sorted(glob.glob('$WS/harness/*/checks.d/$ID.json')):
     print(os.path.basename(os.path.dirname(os.path.dirname(f))))
 ")
   [ -z "$BIN" ] && { echo "no check registered for $ID"; exit 2; }
+  # reuse an already built librocksdb.a (the C++ build takes very long) when one exists in the coordinator's target dir
+  RLIB=$(find /verif/.target/release/build -name librocksdb.a 2>/dev/null | head -1)
+  if [ -n "$RLIB" ]; then export ROCKSDB_LIB_DIR="$(dirname "$RLIB")" ROCKSDB_STATIC=1; fi
   (cd "$WS/harness" && CARGO_NET_OFFLINE=true CARGO_TARGET_DIR="$WS/target" cargo build --release --offline -p "$BIN" >"$WS/build.log" 2>&1) || { echo "BUILD FAILED"; tail -30 "$WS/build.log"; exit 2; }
   cd "$WS/verif" && VERIF_ROOT="$WS/verif" "$WS/target/release/$BIN" "$ID" "$TIER" ;;
  *) echo "usage: see header"; exit 2 ;;
